@@ -437,7 +437,12 @@ func c12Check(r *verifmc.Report, cnt *c11Counts, t *ref.C11Type, input []byte, m
 	val, cerr := c11FromGo(t, dest.Elem(), &limit)
 	if cerr != nil {
 		cnt.outcome[class+":accepted-malformed"]++
-		c12Violate(r, cnt, "Decode:malformed-result:"+cerr.Error()+suffix, func() (string, any) {
+		msig := "Decode:malformed-result:" + cerr.Error()
+		if cerr.Error() == "value-larger-than-limit" {
+			// more than 16 KiB + 64x the input came out of the decoder: only zero-filling can do that
+			msig = "Decode:accepts:truncated-input-zero-filled@oversized-value"
+		}
+		c12Violate(r, cnt, msig+suffix, func() (string, any) {
 			cs := mk()
 			cs.Consumed = consumed
 			return fmt.Sprintf("decoding %x into %s succeeds and leaves %s", input, cs.Type, cerr), cs
@@ -464,7 +469,7 @@ func c12Check(r *verifmc.Report, cnt *c11Counts, t *ref.C11Type, input []byte, m
 		case "unsorted":
 			// entries complete and distinct, only not in ascending key order: the statement does not name
 			// the canonical entry order of maps -> counted, not judged (same position as C11)
-			if lv, ln, lerr := c11DecLenientMaps(t, input); lerr == nil && ln == consumed && ref.C11Equal(t, lv, val) {
+			if lv, ln, lerr := c11DecLenientMaps(t, input); lerr == nil && ln == consumed && ref.C11Equal(t, lv, c11Unsign(t, val)) {
 				cnt.outcome[class+":accepted-map-entries-unsorted (not judged)"]++
 				return true
 			}
